@@ -418,7 +418,12 @@ func (g *gen) specExpr(e *env, x ast.Expr, want string, c *Clause) T {
 		case token.EQL, token.NEQ, token.LSS, token.LEQ, token.GTR, token.GEQ:
 			return T{S: t, Sort: sBool}
 		}
-		return T{S: t, Sort: a.Sort, Signed: a.Signed}
+		// the Go type of an arithmetic result is that of its typed operand (box(a + b) needs it)
+		rt := a.GoT
+		if rt == nil {
+			rt = b.GoT
+		}
+		return T{S: t, Sort: a.Sort, Signed: a.Signed, GoT: rt}
 	case *ast.IndexExpr:
 		base := g.specExpr(e, n.X, "", c)
 		switch {
@@ -916,9 +921,28 @@ func (g *gen) specCall(e *env, n *ast.CallExpr, want string, c *Clause) T {
 			return fail("called: constant ordinal expected")
 		}
 		kk, _ := constant.Int64Val(cv)
-		cr, ok := g.callReach[fmt.Sprintf("%s#%d", exprString(n.Args[0]), kk)]
+		ckey := fmt.Sprintf("%s#%d", exprString(n.Args[0]), kk)
+		if _, ok := g.callReach[ckey]; !ok {
+			// instantiations of generic functions are recorded as name[type arguments]
+			cnt := 0
+			for k := range g.callReach {
+				if strings.HasPrefix(k, exprString(n.Args[0])+"[") && strings.HasSuffix(k, fmt.Sprintf("#%d", kk)) {
+					ckey = k
+					cnt++
+				}
+			}
+			if cnt > 1 {
+				return fail("called: %s#%d is ambiguous", exprString(n.Args[0]), kk)
+			}
+		}
+		cr, ok := g.callReach[ckey]
 		if !ok {
 			return T{S: "false", Sort: sBool} // no such call in this body
+		}
+		// a call in a block that strictly dominates the current one was executed on every path to the current
+		// point (loops are cut at their heads, so the path variable of an earlier block is not known there)
+		if cb := g.callBlock[ckey]; cb != nil && g.curBlock != nil && cb != g.curBlock && cb.Dominates(g.curBlock) {
+			return T{S: "true", Sort: sBool}
 		}
 		return T{S: cr, Sort: sBool}
 	case "exhausted":
